@@ -33,6 +33,7 @@ Faults ==
     {[kind |-> "none"]}
     \cup {[kind |-> "malformed", at |-> i] : i \in 1..(Len(order) + 1)}
     \cup {[kind |-> "writefail", at |-> n] : n \in 1..Cardinality(DOMAIN shapes)}
+    \cup {[kind |-> "writefailp", at |-> n] : n \in 1..Cardinality(DOMAIN shapes)}
     \cup {[kind |-> "badlogin", at |-> i] : i \in 1..(Len(order) + 1)}
     \cup {[kind |-> "badpid", at |-> i] : i \in 1..(Len(order) + 1)}
 
